@@ -142,7 +142,7 @@ _DISP = {}
 
 def build(c, is_async):
     v = c['validator']
-    key = json.dumps([v, c['params'], c['cfg']['methods'][0].get('ctx'), is_async], sort_keys=True)
+    key = json.dumps([v, c['params'], c['cfg']['methods'][0].get('ctx'), is_async, c.get('twin')], sort_keys=True)
     if key in _DISP:
         return _DISP[key]
     f = make_function('f#' + key[:40] + str(len(_DISP)), c['params'], is_async)
@@ -161,6 +161,9 @@ def build(c, is_async):
     d = (pjrpc.server.AsyncDispatcher if is_async else pjrpc.server.Dispatcher)()
     m = c['cfg']['methods'][0]
     d.add(g, 'f', context=m.get('ctx'))
+    if c.get('twin'):
+        # the same function exposed a second time, with another context designation, under the same validator
+        d.add(g, 'g', context=c['twin']['ctx'])
     _DISP[key] = (d, f.__code__)
     return _DISP[key]
 
@@ -174,13 +177,18 @@ def run_impl(c):
         for k in list(S.CURRENT['bodies']):
             pass
         S.CURRENT['bodies'] = {k2: dict(c['cfg']['methods'][0]['body'], _name='f', _post=None) for k2 in _all_keys()}
+        if c.get('twin'):
+            # ... and served first
+            warm = json.dumps({'jsonrpc': '2.0', 'id': 0, 'method': 'g', 'params': c['twin']['params']})
+            S.loop().run_until_complete(d.dispatch(warm, context=S.next_ctx())) if is_async else d.dispatch(warm, context=S.next_ctx())
         del S.LOG[:]
         try:
-            r = S.loop().run_until_complete(d.dispatch(c['text'], context=S.CTX)) if is_async else d.dispatch(c['text'], context=S.CTX)
+            r = S.loop().run_until_complete(d.dispatch(c['text'], context=S.next_ctx())) if is_async else d.dispatch(c['text'], context=S.next_ctx())
         except Exception as e:  # noqa
             r = e
         out[half] = S.observe(r, list(S.LOG))
     out['async_plain'] = out['async']
+    out['async_seq'] = out['async']
     return out
 
 
@@ -254,7 +262,7 @@ def reference(c):
     return 'accept', recv
 
 
-def make_case(params, validator, ctx, req_params, tag='validators'):
+def make_case(params, validator, ctx, req_params, tag='validators', twin=None):
     sig = [{'n': p['n'], 'k': p['k'], 'd': p['d']} for p in params]
     m = D.M('f', sig, D.ECHO)
     if ctx:
@@ -265,6 +273,8 @@ def make_case(params, validator, ctx, req_params, tag='validators'):
     c = D.case(text, D.cfg(methods=[m]), tag=tag)
     c['params'] = params
     c['validator'] = validator
+    if twin is not None:
+        c['twin'] = twin
     # the validator's verdict for the model
     kind, recv = reference(c)
     if kind == 'reject':
@@ -303,6 +313,11 @@ def generate(tier, rng):
                 paramsc = [{'n': 'ctx', 'k': 'pk', 'd': False}, {'n': 'a', 'k': 'pk', 'd': False, 'ann': ann1}]
                 for rp in ([v1], {'a': v1}, {'a': v1, 'ctx': 1}, [v1, 2]):
                     yield make_case(paramsc, {'kind': 'pydantic', 'coerce': coerce}, 'ctx', rp)
+                    # exposed also without the context designation (and the other way round), the twin served first
+                    yield make_case(paramsc, {'kind': 'pydantic', 'coerce': coerce}, 'ctx', rp, tag='validators-twin',
+                                    twin={'ctx': None, 'params': {'ctx': 1, 'a': v1}})
+                    yield make_case(paramsc, {'kind': 'pydantic', 'coerce': coerce}, None, rp, tag='validators-twin',
+                                    twin={'ctx': 'ctx', 'params': {'a': v1}})
     # --- jsonschema: per-parameter fragments, required, additionalProperties ----------------------
     for name, (frag, vals) in SCHEMAS.items():
         for val in vals:
@@ -324,6 +339,13 @@ def generate(tier, rng):
         paramsc = [{'n': 'ctx', 'k': 'pk', 'd': False}, {'n': 'a', 'k': 'pk', 'd': False}]
         for rp in ([1], ['x'], {'a': 1}, {'a': 1, 'ctx': 2}):
             yield make_case(paramsc, {'kind': 'jsonschema', 'schema': schema, 'excluded': []}, 'ctx', rp)
+            yield make_case(paramsc, {'kind': 'jsonschema', 'schema': schema, 'excluded': []}, 'ctx', rp, tag='validators-twin',
+                            twin={'ctx': None, 'params': {'ctx': 1, 'a': 1}})
+            yield make_case(paramsc, {'kind': 'jsonschema', 'schema': schema, 'excluded': []}, None, rp, tag='validators-twin',
+                            twin={'ctx': 'ctx', 'params': {'a': 1}})
+            for kind in ('base',):
+                yield make_case(paramsc, {'kind': kind}, 'ctx', rp, tag='validators-twin', twin={'ctx': None, 'params': {'ctx': 1, 'a': 1}})
+                yield make_case(paramsc, {'kind': kind}, None, rp, tag='validators-twin', twin={'ctx': 'ctx', 'params': {'a': 1}})
     # validator arguments of one method must not reach another method validated by the same validator object:
     # `format` is an assertion only for the method that asks for a format checker
     fschema = {'type': 'object', 'properties': {'a': {'type': 'string', 'format': 'ipv4'}}, 'required': ['a']}
